@@ -2,7 +2,7 @@
 From Coq Require Import List NArith ZArith Bool Arith String.
 From Coq Require Import Strings.Byte.
 From NfpmV Require Import Lib.Bytes Model.Content Model.Prepare Model.Writers Model.OutputProgs Spec.C06.
-From NfpmV Require Import Proofs.C06Proofs.
+From NfpmV Require Import Proofs.C06Proofs Proofs.C06Complete.
 Import ListNotations.
 Open Scope list_scope.
 
@@ -31,6 +31,34 @@ Theorem C06_archlinux_loud : forall fault chunks trailer sched s',
   exec fault (prog_arch true chunks trailer) (fresh_stack 2 sched) = (s', false) -> ~ fired fault (dst s').
 Proof. exact arch_loud. Qed.
 Print Assumptions C06_archlinux_loud.
+
+(* SUCCESS MEANS COMPLETE OUTPUT. For any fault set and flush schedule: a program of checked writes to the top layer
+   followed by a checked top-down close of all [n] layers, started on empty layers, that reports success has
+   delivered to the destination exactly the written payloads followed by the layers' trailers, in order (layers
+   are pure buffers in the model: what a compressor does to the bytes is not modelled). *)
+Theorem C06_success_means_complete_output : forall fault body tr n sched s',
+  Forall (fun o => op_j o = 0 /\ op_checked o = true) body ->
+  exec fault (body ++ closes 0 n tr) (fresh_stack n sched) = (s', false) ->
+  got (dst s') = List.concat (map op_data body) ++ List.concat (map tr (seq 0 n)).
+Proof. exact complete_output. Qed.
+Print Assumptions C06_success_means_complete_output.
+
+Theorem C06_deb_complete : forall fault members sched s',
+  exec fault (prog_deb true members) (fresh_stack 0 sched) = (s', false) ->
+  got (dst s') = List.concat (map op_data (prog_deb true members)).
+Proof. exact deb_complete. Qed.
+Print Assumptions C06_deb_complete.
+
+Theorem C06_rpm_apk_ipk_complete : forall fault parts sched s',
+  exec fault (prog_flat parts) (fresh_stack 0 sched) = (s', false) -> got (dst s') = List.concat parts.
+Proof. exact flat_complete. Qed.
+Print Assumptions C06_rpm_apk_ipk_complete.
+
+Theorem C06_archlinux_complete : forall fault chunks trailer sched s',
+  exec fault (prog_arch true chunks trailer) (fresh_stack 2 sched) = (s', false) ->
+  got (dst s') = List.concat chunks ++ trailer.
+Proof. exact arch_complete. Qed.
+Print Assumptions C06_archlinux_complete.
 
 (* the deb program performs exactly the destination writes the check counts in the implementation *)
 Theorem C06_deb_write_count : forall pc members,
